@@ -30,6 +30,11 @@ mod uplink;
 
 pub use registry::LaneRegistry;
 
+#[cfg(swimos_verif)]
+pub mod verif_hooks {
+    pub use super::uplink::Uplinks;
+}
+
 use self::uplink::Uplinks;
 
 use super::write_fut::{SpecialAction, WriteTask};
